@@ -86,6 +86,11 @@ def gen_cases(rng, tier):
             else:
                 recs.append(V.gen_record(r, descspec=r.choice(descs), types=types))
         cases.append({"kind": "cuts", "records": shrink_big(recs), "gz": i % 2 == 0, "faults": i % 3 == 0})
+    # a comparison-ignore configuration in force while the stream is written (a de-duplicating producer): it concerns ==
+    # and hash() only - the frames written are the same
+    for c in cases:
+        names = [n_ for s_ in c["records"] if s_[0] == "rec" for _, n_ in s_[1][1]]
+        c["ignore"] = r.choice([["_generated"], names[:1] + ["_generated"], names[-1:] or ["_source"], ["_source", "_classification"]])
     return cases
 
 
@@ -153,6 +158,22 @@ def run_real(case):
             ends.append(buf.tell())
         data = buf.getvalue()
         w.fp = None
+        same_under_ignore = None
+        if case.get("ignore"):
+            import flow.record.base as _B
+            saved = set(_B.IGNORE_FIELDS_FOR_COMPARISON)
+            _B.set_ignored_fields_for_comparison(list(case["ignore"]))
+            try:
+                buf2 = io.BytesIO()
+                w2 = RecordStreamWriter(buf2)
+                for r in recs:
+                    w2.write(r)
+                same_under_ignore = buf2.getvalue() == data
+                w2.fp = None
+            except Exception as e:          # noqa: BLE001
+                same_under_ignore = "raised " + type(e).__name__
+            finally:
+                _B.set_ignored_fields_for_comparison(saved)
         hashes = []
         for r in recs:
             W.all_descs(r, hashes)
@@ -322,12 +343,15 @@ def run_real(case):
                                     f"{len(gobs)} of {len(recs)} records are read back ({end})")
         return {"len": len(data), "stream": data.hex(), "hashes": hashes, "per_cut": per_cut, "ncuts": ncuts,
                 "nfaults": nfaults, "n_records": len(recs), "n_frames": len(frames), "full_end": end_full,
-                "problems": problems[:5], "n_problems": len(problems)}
+                "problems": problems[:5], "n_problems": len(problems), "same_under_ignore": same_under_ignore}
 
 
 def oracle(case, obs):
     if obs["full_end"] != "eof":
         return f"the complete stream does not read cleanly: {obs['full_end']}"
+    if obs.get("same_under_ignore") not in (None, True):
+        return (f"with the comparison-ignore configuration {case.get('ignore')} in force the writer emits other bytes for "
+                f"the same records ({obs['same_under_ignore']}): what a reader yields from them is not the records written")
     if obs["n_problems"]:
         return f"{obs['n_problems']} cut/fault positions violate the prefix property; first: {obs['problems'][0]}"
     return None
